@@ -1,6 +1,7 @@
 import Lean.Data.Json
 import QV.Drive.C09
 import QV.Drive.Comp
+import QV.Drive.C11
 /-! `qvdriver`: one JSON request per input line, one JSON reply per output line. -/
 open Lean
 
@@ -8,7 +9,8 @@ def dispatch (j : Json) : Except String Json := do
   let op ← j.getObjValAs? String "op"
   let handlers : List (String → Json → Option (Except String Json)) := [
     QV.Drive.C09.handle,
-    QV.Drive.Comp.handle
+    QV.Drive.Comp.handle,
+    QV.Drive.C11.handle
   ]
   for h in handlers do
     if let some r := h op j then return ← r
